@@ -268,11 +268,14 @@ where
 
         // Handle backrefs that come after by finding the first address after
         // our write, truncating it to the appropriate size, and rewriting it
-        let address_after_write = address + (value.bits() / 8) as u64;
+        // A write may end exactly at the top of the address space, in which
+        // case there is no cell after it.
+        let address_after_write = address.checked_add((value.bits() / 8) as u64);
 
-        let value_to_write = if let Some(MemoryCell::Backref(backref_address)) =
-            self.load_cell(address_after_write)
-        {
+        let value_to_write = if let (Some(address_after_write), Some(MemoryCell::Backref(backref_address))) = (
+            address_after_write,
+            address_after_write.and_then(|address| self.load_cell(address)),
+        ) {
             let backref_value = self
                 .load_cell(*backref_address)
                 .ok_or("Backref cell pointed to null cell")?
@@ -288,7 +291,9 @@ where
             None
         };
 
-        if let Some(value_to_write) = value_to_write {
+        if let (Some(address_after_write), Some(value_to_write)) =
+            (address_after_write, value_to_write)
+        {
             self.store_no_backref(address_after_write, value_to_write);
         }
 
